@@ -622,3 +622,52 @@ fn c01_find_huge_volume_on_silence_is_nan() {
 	kani::cover!(true, "w:reached");
 	std::mem::forget(sound); std::mem::forget(w);
 }
+
+// ---------------------------------------------------------------------------------------------
+// C11: the same two frames rendered as one chunk of 2 or as two chunks of 1
+// ---------------------------------------------------------------------------------------------
+fn kv_clone_sound(s: &StaticSound) -> StaticSound {
+	let (_wr, readers) = command_writers_and_readers();
+	std::mem::forget(_wr);
+	let ix = s.resampler.kv_indices();
+	let fr = s.resampler.kv_frames();
+	StaticSound {
+		command_readers: readers, sample_rate: s.sample_rate, frames: s.frames.clone(), slice: s.slice, reverse: s.reverse,
+		playback_state_manager: PlaybackStateManager::new(None), start_time: StartTime::Immediate,
+		resampler: Resampler::kv_from([(fr[0], ix[0]), (fr[1], ix[1]), (fr[2], ix[2]), (fr[3], ix[3])], s.resampler.kv_time_until_empty()),
+		transport: Transport { position: s.transport.position, loop_region: s.transport.loop_region, playing: s.transport.playing },
+		fractional_position: s.fractional_position,
+		volume: Parameter::new(Value::Fixed(Decibels::IDENTITY), Decibels::IDENTITY),
+		playback_rate: Parameter::new(Value::Fixed(s.playback_rate.value()), PlaybackRate(1.0)),
+		panning: Parameter::new(Value::Fixed(Panning::CENTER), Panning::CENTER),
+		shared: Arc::new(Shared { state: AtomicU8::new(PlaybackState::Playing as u8), position: AtomicU64::new(0) }),
+	}
+}
+
+// @h prop=C11,C04 tier=quick kind=main timeout=400
+// @bounds a StaticSound in any PLAYING transport/resampler state at rate 1: two frames rendered by one process() call of 2 frames vs two calls of 1 frame: identical output and identical final state
+// @funcs StaticSound::process
+// @catches any dependence of the rendered audio or of the sound's state on where the chunk boundary falls (per-chunk rounding, state advanced per call instead of per frame, time_in_chunk misuse)
+#[kani::proof]
+#[kani::unwind(10)]
+fn c11_static_two_frames_one_chunk_or_two() {
+	let a = KvArenas::empty();
+	let info = a.info();
+	let (mut s1, _w, _position, _playing, _lp, _tue, _slice, _reverse) = kv_any_sound(1.0, 0.0);
+	// mid-playback states. (While the window drains after the end, kv_any_sound's window contents are not tied to
+	// the drain counter, and the callback in which Stopped is reached is finished to its end by design: first
+	// version of this harness raised a false alarm there.)
+	kani::assume(_playing);
+	let mut s2 = kv_clone_sound(&s1);
+	let mut o1 = [Frame::ZERO; 2];
+	s1.process(&mut o1, 1.0, &info);
+	let mut o2a = [Frame::ZERO; 1];
+	let mut o2b = [Frame::ZERO; 1];
+	s2.process(&mut o2a, 1.0, &info);
+	s2.process(&mut o2b, 1.0, &info);
+	assert!(o1[0] == o2a[0] && o1[1] == o2b[0], "the rendered audio does not depend on how the callback is partitioned");
+	assert!(kv_same(&kv_pos(&s1), &kv_pos(&s2)) && s1.finished() == s2.finished() && s1.resampler.kv_time_until_empty() == s2.resampler.kv_time_until_empty(), "nor does the sound's state afterwards");
+	kani::cover!(_playing && _lp.is_some(), "w:looping");
+	kani::cover!(_position + 1 == _slice.1 - _slice.0 && _lp.is_none(), "w:reaches-end-inside-the-two-frames");
+	std::mem::forget(s1); std::mem::forget(s2);
+}
